@@ -93,7 +93,7 @@ class P:
                     hid = log[k][0]
                     idx = sum(1 for (h, _a) in log[:k] if h == hid)
                     sc = handlers[hid][1]
-                    lst = [sc[min(i, len(sc) - 1)] for i in range(idx)] + [(fault,)]
+                    lst = [sc[min(i, len(sc) - 1)] for i in range(idx)] + [(fault,) if (fault != "fail" or k % 5 == 0) else ("fail", k % 5)]
                     h2 = dict(handlers); h2[hid] = ("count", lst)
                     items.append(self.mk(stmts, ctx, h2, PT, (fault, k)))
         cases = flow.mk_cases("fault", items)
